@@ -34,7 +34,7 @@ def build_prog(kind):
 
 
 def run_prog(exe, kind, seed, excl):
-    env = dict(os.environ, ASAN_OPTIONS="detect_leaks=1", TSAN_OPTIONS="halt_on_error=0")
+    env = dict(os.environ, ASAN_OPTIONS="detect_stack_use_after_return=1:detect_leaks=1", TSAN_OPTIONS="halt_on_error=0")
     if excl:
         env["IV_EXCLUDE_POLL_METHOD"] = excl
     else:
